@@ -98,3 +98,9 @@ Proof. repeat split; reflexivity. Qed.
 From SymfcG Require Import ShapesPerm SkelPerm.
 Theorem c09_recorded_sources4_in_force : ShapesPerm_as_recorded = true /\ SkelPerm_as_recorded = true.
 Proof. repeat split; reflexivity. Qed.
+
+(** The Symfc facade (the entry point through which every returned force constant and basis set of this property is obtained) is the
+    recorded source: whole-function and skeleton match, regenerated on every run. *)
+From SymfcG Require Import ShapesApi SkelApi.
+Theorem c09_facade_in_force : ShapesApi_as_recorded = true /\ SkelApi_as_recorded = true.
+Proof. repeat split; reflexivity. Qed.
